@@ -1585,6 +1585,16 @@ class Interp(object):
         if len(args) != 2 or kwargs:
             return TOP
         f, it = args[0], args[1]
+        a0 = e.args[0] if e is not None and getattr(e, 'args', None) else None
+        if it is not TOP and not isinstance(it, Obj) and isinstance(a0, ast.Name) and a0.id not in env and a0.id in ('chr', 'ord', 'str', 'int', 'float', 'bool', 'len', 'repr', 'abs', 'hex', 'bin', 'oct', 'bytes'):
+            items = self.iterate(it)
+            if any(x is TOP or isinstance(x, Obj) for x in items):
+                return TOP
+            try:
+                r = [getattr(_b, a0.id)(x) for x in items]
+            except Exception as ex:
+                raise _Raise(type(ex).__name__)
+            return OneShot(r) if self.version >= (3,) else r
         if it is TOP or not isinstance(f, Closure):
             return TOP
         r = [self.call_closure(f, [x], {}) for x in self.iterate(it)]
